@@ -62,6 +62,12 @@ def builtin_corpus():
           ['s', [V('X')], ['and', ['cut'], ['true']]], ['t', [V('X')], ['call', 'q', [V('X')]]]] + q3, [['p', [V('Q0')]], ['r', [V('Q0')]], ['t', [V('Q0')]], ['q', [V('Q0')]]])
     return L
 
+def oracle(case, io):
+    """intrinsic, on the implementation alone: no query variable stays bound (semcheck), and the caller's own alternatives are
+    untouched - the generated callers around a predicate with cuts answer exactly their callee's answers inside their own
+    generator's solutions, followed by their own last clause (progs_shapes.check_relations)"""
+    return semcheck.oracle(case, io) or progs_shapes.check_relations(case, io)
+
 def nontrivial(case, io):
     if not isinstance(io, dict) or 'queries' not in io or not any(q['count'] >= 1 for q in io['queries']):
         return False
